@@ -309,5 +309,19 @@ func VerifH_C03_graphs() {
 	if db.AddGraph(n1) == nil {
 		g1, err := db.Graph(n1)
 		vAssert("C03.graphs.recreated-empty", err == nil && len(vObsVertexIDs(g1)) == 0 && len(vObsEdgeIDs(g1)) == 0)
+		if err != nil {
+			return
+		}
+		// nothing of the previous incarnation shows through any other observation
+		// either: adjacency in both directions (with and without loading the edge
+		// record), neighbours, label scan
+		adj := len(vObsOutE(g1, "p", nil, false)) + len(vObsOutE(g1, "p", nil, true)) +
+			len(vObsInE(g1, "p", nil, false)) + len(vObsInE(g1, "p", nil, true)) +
+			len(vObsOutE(g1, "p", []string{"L"}, false)) + len(vObsInE(g1, "p", []string{"L"}, false))
+		vAssert("C03.graphs.recreated-no-stale-adjacency", adj == 0)
+		// the neighbour listing only shows a stale entry once the endpoint exists again
+		g1.AddVertex([]*gdbi.Vertex{{ID: "p", Label: "P2", Data: map[string]interface{}{}}})
+		vAssert("C03.graphs.recreated-no-stale-neighbours", len(vObsOut(g1, "p", nil)) == 0 && len(vObsIn(g1, "p", nil)) == 0)
+		vAssert("C03.graphs.recreated-no-stale-label", len(c16LabelScan(g1, "P")) == 0)
 	}
 }
